@@ -102,6 +102,7 @@ type Exec struct {
 	topMods  []modLoc
 	hasMods  bool
 	inlineDepth int
+	curClo   []Val
 }
 
 func newExec(eng *Engine, fn *ssa.Function, con *Contract) *Exec {
@@ -135,6 +136,9 @@ func (x *Exec) declare(name, sort string) {
 	if x.declared[name] {
 		return
 	}
+	if strings.Contains(sort, "Str") {
+		x.declSort("Str")
+	}
 	x.declared[name] = true
 	x.emit(fmt.Sprintf("(declare-fun %s () %s)", name, sort))
 }
@@ -142,6 +146,9 @@ func (x *Exec) declare(name, sort string) {
 func (x *Exec) declareFun(name, sig string) {
 	if x.declared[name] {
 		return
+	}
+	if strings.Contains(sig, "Str") && name != "strlen" {
+		x.declSort("Str")
 	}
 	x.declared[name] = true
 	x.emit(fmt.Sprintf("(declare-fun %s %s)", name, sig))
@@ -360,6 +367,9 @@ func (x *Exec) load(st *State, loc *Loc, t types.Type) Val {
 	case Sc:
 		if kindOf(t) == KInt && !strings.Contains(vv.T, "$q") {
 			x.assumeTyped("true", t, v)
+		}
+		if kindOf(t) == KPtr && !strings.Contains(vv.T, "$q") && st.alc != "" {
+			x.assume("true", sx("<=", vv.T, st.alc))
 		}
 	case SliceV:
 		if !strings.Contains(vv.Arr+vv.Len, "$q") {
